@@ -127,6 +127,17 @@ struct ChainSimOpts {
     bool with_mempool_checks{false};      //!< CTxMemPool::check() after every block/tx (allocates a 256 KiB coins cache each time)
     /** last-minute edits of the option structs */
     std::function<void(ChainstateManager::Options&)> tweak_chainman{};
+    /** called with the (fresh, empty) network datadir before the chainstate manager is created: lets a caller
+     *  pre-populate it with an existing datadir image (crash recovery, restart tests) */
+    std::function<void(const fs::path& datadir_net)> before_load{};
+    /** true: assert that LoadChainstate/VerifyLoadedChainstate/ActivateBestChain succeed (default). false: record the
+     *  outcome in ChainSim::load_ok / load_error / load_stage and do not abort (node may be unusable afterwards) */
+    bool assert_load{true};
+    /** run ActivateBestChain as part of construction (default); false leaves the tip exactly as loaded from disk */
+    bool activate_on_load{true};
+    /** VerifyLoadedChainstate depth/level as init.cpp would use by default (-checkblocks=6 -checklevel=3) */
+    int check_blocks{6};
+    int check_level{3};
 };
 
 struct BlockSpec {
@@ -162,6 +173,9 @@ public:
     ~ChainSim();
 
     ChainSimOpts m_opts;
+    bool load_ok{true};
+    std::string load_stage;   //!< "load" | "verify" | "activate" | "exception" when !load_ok
+    std::string load_error;
     RefLedger ledger;
     KeyRing keys;
     std::shared_ptr<VerdictCatcher> catcher;
